@@ -364,7 +364,7 @@ class OpGen:
             isinstance(o, GraphQLInterfaceType) and t in o.interfaces for o in self.schema.type_map.values())]
         if "shape.iface_hierarchy" in self.dirty:
             count = max(count, 3)
-        deep = self.deep = self.rng.random() < 0.2
+        deep = self.deep = self.rng.random() < (0.5 if "frag.many" in self.dirty else 0.2)  # (same draw: only the threshold depends on the class)
         if deep:
             # long spread chains through nested fields: fragment -> field { ...fragment } -> field { ...fragment } ...
             count = max(count, self.rng.randrange(4, 8))
